@@ -321,7 +321,9 @@ func onResourceRuleUpdate(res string, rawResRules []*Rule) (err error) {
 		breakers[res] = newCbsOfRes
 	}
 	updateMux.Unlock()
-	currentRules[res] = rawResRules
+	// keep a copy of the list: the caller may go on using its slice (replace an element and load it
+	// again), and a slice compared with itself always looks unchanged
+	currentRules[res] = append([]*Rule(nil), rawResRules...)
 
 	logging.Debug("[CircuitBreaker onResourceRuleUpdate] Time statistics(ns) for updating circuit breaker rule", "timeCost", util.CurrentTimeNano()-start)
 	logging.Info("[CircuitBreaker] load resource level rules", "resource", res, "validResRules", validResRules)
